@@ -5,7 +5,7 @@ sys.path.insert(0, os.path.dirname(os.path.abspath(__file__)))
 import props as P
 ROOT = os.path.dirname(os.path.dirname(os.path.abspath(__file__)))
 ids = [json.loads(l)["id"] for l in open(os.path.join(ROOT, "properties.jsonl"))]
-hook_commits = ["eb725ef", "e8fde29", "46887c4", "aa8f2c6"]
+hook_commits = ["eb725ef", "e8fde29", "46887c4", "aa8f2c6", "1a7ec1f"]
 checks, na = [], []
 for pid in ids:
     c = P.PROPS.get(pid)
